@@ -153,6 +153,9 @@ func runC07(c *Ctx) {
 	c07Resp(c)
 	c07IndexSpace(c)
 	c07VerdictFromMatcher(c)
+	if f := c.fn("RESP", "component/dns", "Dns.ResponseSelect"); f != nil {
+		makeThenAppend(c, "RESP", f)
+	}
 	c.R.Floor("PARSENUM", parseNumSites(c, "PARSENUM", []string{"component/dns"}, func(f string) bool { return f == "function_parser.go" }), 1)
 }
 
